@@ -2,12 +2,13 @@
 # run_sens.sh [budget_s] [filter] — hand-written sensitivity changes (/verif/sensitivity/*.diff) vs the check of their property,
 # in a scratch clone of /repo. Writes /verif/sensitivity/RESULTS.txt. Not a registered command.
 BUD="${1:-8}"; FILTER="${2:-}"
-cd /verif || exit 2
+cd "$(dirname "$0")" || exit 2
+ROOT="$(pwd)"
 SCR=$(mktemp -d /tmp/sens.XXXXXX)
 git clone -q /repo "$SCR/repo" || exit 2
 for f in sensitivity/*${FILTER}*.diff; do
   name=$(basename "$f" .diff); prop=${name%%__*}
-  ( cd "$SCR/repo" && git checkout -q -- . && git apply "/verif/$f" ) || { echo "$name APPLY-FAILED"; continue; }
+  ( cd "$SCR/repo" && git checkout -q -- . && git apply "$ROOT/$f" ) || { echo "$name APPLY-FAILED"; continue; }
   t0=$(date +%s)
   out=$(VERIF_REPO="$SCR/repo" VERIF_BUDGET_S="$BUD" VERIF_NO_EVIDENCE=1 ./check "$prop" quick 2>&1); rc=$?
   t1=$(date +%s)
